@@ -18,8 +18,8 @@ Lemma parse_all_no_panic {A} (f : bytes -> res A) l :
   (forall s, f s <> Panic) -> parse_all f l <> Panic.
 Proof.
   intros Hf. induction l as [|s r IH]; simpl; [discriminate|].
-  destruct (f s) eqn:E; simpl; try discriminate; [|exfalso; exact (Hf _ E)].
-  destruct (parse_all f r); simpl; try discriminate. exfalso; apply IH; reflexivity.
+  destruct (f s) eqn:E; cbn [rbind]; try discriminate; [|exfalso; exact (Hf _ E)].
+  destruct (parse_all f r); cbn [rbind]; try discriminate. exfalso; apply IH; reflexivity.
 Qed.
 
 Lemma parse_via_param_no_panic s : parse_via_param s <> Panic.
@@ -37,7 +37,7 @@ Lemma parse_generic_params_no_panic l : parse_generic_params l <> Panic.
 Proof.
   induction l as [|s r IH]; simpl; [discriminate|].
   destruct s; simpl; [discriminate|].
-  destruct (parse_generic_params r); simpl; try discriminate. exfalso; apply IH; reflexivity.
+  destruct (parse_generic_params r); cbn [rbind]; try discriminate. exfalso; apply IH; reflexivity.
 Qed.
 Lemma parse_sip_uri_with_no_panic pp s : parse_sip_uri_with pp s <> Panic.
 Proof.
@@ -69,7 +69,7 @@ Proof.
   unfold parse_addr_spec, parse_addr_spec_with.
   destruct (has_prefix (s2b "sip:") s || has_prefix (s2b "sips:") s)%bool; [|discriminate].
   pose proof (parse_sip_uri_with_no_panic parse_uri_parameters s) as H.
-  destruct (parse_sip_uri_with parse_uri_parameters s); simpl; try discriminate. contradiction.
+  destruct (parse_sip_uri_with parse_uri_parameters s); cbn [rbind]; try discriminate. contradiction.
 Qed.
 Lemma parse_name_addr_no_panic s : parse_name_addr s <> Panic.
 Proof.
@@ -77,17 +77,17 @@ Proof.
   destruct (index_byte ">"%char s) as [p2|]; [|discriminate].
   destruct (Nat.ltb p2 p1); [discriminate|].
   pose proof (parse_addr_spec_no_panic (slice s (S p1) p2)) as H.
-  destruct (parse_addr_spec (slice s (S p1) p2)); simpl; try discriminate. contradiction.
+  destruct (parse_addr_spec (slice s (S p1) p2)); cbn [rbind]; try discriminate. contradiction.
 Qed.
 Lemma parse_route_param_no_panic s : parse_route_param s <> Panic.
 Proof.
   unfold parse_route_param. destruct (index_byte ">"%char s) as [pos|]; [|discriminate].
   pose proof (parse_name_addr_no_panic (firstn (S pos) s)) as H.
-  destruct (parse_name_addr (firstn (S pos) s)); simpl; try discriminate; [|contradiction].
+  destruct (parse_name_addr (firstn (S pos) s)); cbn [rbind]; try discriminate; [|contradiction].
   destruct (trim_space (skipn (S pos) s)) as [|c rest]; [discriminate|].
   destruct (Ascii.eqb c ";"%char); [|discriminate].
   pose proof (parse_generic_params_no_panic (split_byte ";"%char rest)) as H1.
-  destruct (parse_generic_params (split_byte ";"%char rest)); simpl; try discriminate. contradiction.
+  destruct (parse_generic_params (split_byte ";"%char rest)); cbn [rbind]; try discriminate. contradiction.
 Qed.
 Lemma parse_route_no_panic s : parse_route s <> Panic.
 Proof. apply parse_all_no_panic, parse_route_param_no_panic. Qed.
@@ -102,18 +102,18 @@ Proof.
     end <> Panic).
   { intros a [|c r]; [discriminate|].
     pose proof (parse_generic_params_no_panic (split_byte ";"%char (c :: r))) as H1.
-    destruct (parse_generic_params (split_byte ";"%char (c :: r))); simpl; try discriminate. contradiction. }
+    destruct (parse_generic_params (split_byte ";"%char (c :: r))); cbn [rbind]; try discriminate. contradiction. }
   destruct (index_byte "<"%char s) as [la|].
   - destruct (index_byte ">"%char s) as [ra|]; [|discriminate].
     destruct (Nat.ltb ra la); [discriminate|].
     pose proof (parse_name_addr_no_panic (firstn (S ra) s)) as H.
-    destruct (parse_name_addr (firstn (S ra) s)); simpl; try discriminate; [|contradiction].
-    destruct (index_byte ";"%char (skipn (S ra) s)); apply F.
+    destruct (parse_name_addr (firstn (S ra) s)); cbn [rbind]; try discriminate; [|contradiction].
+    destruct (index_byte ";"%char (skipn (S ra) s)); [apply F|exact (F _ [])].
   - destruct (index_byte ";"%char s) as [pos|].
     + pose proof (parse_addr_spec_no_panic (firstn pos s)) as H.
-      destruct (parse_addr_spec (firstn pos s)); simpl; try discriminate; [apply F|contradiction].
+      destruct (parse_addr_spec (firstn pos s)); cbn [rbind]; try discriminate; [apply F|contradiction].
     + pose proof (parse_addr_spec_no_panic s) as H.
-      destruct (parse_addr_spec s); simpl; try discriminate; contradiction.
+      destruct (parse_addr_spec s); cbn [rbind]; try discriminate; contradiction.
 Qed.
 Lemma parse_cseq_no_panic s : parse_cseq s <> Panic.
 Proof.
@@ -257,4 +257,546 @@ Proof.
       apply nopanic_mbind; [intros m; discriminate|]. intros ex. destruct od; apply nopanic_mret.
     + destruct (beq meth (s2b "BYE")); [|apply nopanic_mret].
       apply nopanic_mbind; [apply nopanic_mtry, nopanic_s_get_dialog|]. intros od. destruct od; apply nopanic_mret.
+Qed.
+
+(* ------------------------------------------------------------------ one decoded message *)
+(* the guarded slice expression host[1:len(host)-1] *)
+Lemma bracket_guard_ok host0 :
+  exists host,
+    (if has_prefix (s2b "[") host0
+     then (if (true && negb (has_suffix (s2b "]") host0 && Nat.leb 2 (List.length host0)))%bool
+           then Ok host0 else slice_chk host0 1 (List.length host0 - 1))
+     else Ok host0) = Ok host.
+Proof.
+  destruct (has_prefix (s2b "[") host0); [|eexists; reflexivity].
+  destruct (has_suffix (s2b "]") host0); cbn [andb negb]; [|eexists; reflexivity].
+  destruct (Nat.leb 2 (List.length host0)) eqn:E; cbn [negb]; [|eexists; reflexivity].
+  apply Nat.leb_le in E. unfold slice_chk.
+  assert (H : (Nat.leb 1 (List.length host0 - 1) && Nat.leb (List.length host0 - 1) (List.length host0))%bool = true).
+  { apply andb_true_iff; split; apply Nat.leb_le; lia. }
+  rewrite H. eexists; reflexivity.
+Qed.
+
+(* with the guard in place a decoded message is always processed to the end *)
+Theorem C08_process_message_ok : forall e peer pp from rs tcp m0 x,
+  fx_bracket_host (e_fx e) = true ->
+  exists x', process_message e peer pp from rs tcp m0 x = Ok x'.
+Proof.
+  intros e peer pp from rs tcp m0 x Hfx. unfold process_message.
+  destruct (if (is_request m0 && negb (amem peer (ps_backends (x_p x))))%bool then _ else _) as [m1 l1].
+  set (m2 := if (is_request m1 && rs)%bool then fst (s_set_received peer pp m1) else m1).
+  assert (G : forall rp : message * res pstate, snd rp <> Panic -> snd rp <> Err ->
+     exists x', (let '(m3, rp0) := rp in
+       match rp0 with
+       | Panic => Panic | Err => Err
+       | Ok p1 =>
+         let m4 := fst (mtry (try_remove_top_route (e_cfg e) from) m3) in
+         let '(m5, p2) :=
+           if is_response m4 then
+             let '(m', r) := handle_dialog e peer pp p1 m4 in
+             (m', match r with Ok p' => p' | _ => p1 end)
+           else (m4, p1) in
+         let x1 := {| x_learned := l1; x_p := p2; x_conns := x_conns x; x_world := x_world x; x_outs := x_outs x |} in
+         Ok (fst (handle_message e from m5 x1))
+       end) = Ok x').
+  { intros [m3 [p1| |]] H1 H2; simpl in H1, H2; try contradiction.
+    cbv zeta. destruct (if is_response _ then _ else _) as [m5 p2]. eexists; reflexivity. }
+  apply G; clear G.
+  - destruct tcp as [c|]; [|discriminate]. destruct (is_request m2); [|discriminate].
+    destruct (mtry next_response_hop m2) as [m' [oh| |]]; try discriminate.
+    rewrite Hfx.
+    destruct (bracket_guard_ok (match oh with Some (h, _, _) => h | None => [] end)) as [host ->].
+    destruct oh as [[[h0 p0] t0]|]; [|discriminate].
+    destruct (mtry s_client_transaction m') as [m'' [[t|]| |]]; try discriminate.
+    destruct (get_transport _ _ _ _ _ _) as [p1 [key| |]]; discriminate.
+  - destruct tcp as [c|]; [|discriminate]. destruct (is_request m2); [|discriminate].
+    destruct (mtry next_response_hop m2) as [m' [oh| |]]; try discriminate.
+    rewrite Hfx.
+    destruct (bracket_guard_ok (match oh with Some (h, _, _) => h | None => [] end)) as [host ->].
+    destruct oh as [[[h0 p0] t0]|]; [|discriminate].
+    destruct (mtry s_client_transaction m') as [m'' [[t|]| |]]; try discriminate.
+    destruct (get_transport _ _ _ _ _ _) as [p1 [key| |]]; discriminate.
+Qed.
+
+Corollary C08_process_message_no_panic : forall e peer pp from rs tcp m0 x,
+  fx_bracket_host (e_fx e) = true -> process_message e peer pp from rs tcp m0 x <> Panic.
+Proof.
+  intros e peer pp from rs tcp m0 x H. destruct (C08_process_message_ok e peer pp from rs tcp m0 x H) as [x' ->].
+  discriminate.
+Qed.
+
+(* ------------------------------------------------------------------ one TCP chunk *)
+(* what the per-connection loop extracts from a chunk: the decodable messages, and whether it
+   stopped on a decode error (true) or on the end of the data / keep-alive blank lines (false) *)
+Fixpoint stream_msgs (fuel : nat) (s : bytes) : list message * bool :=
+  match fuel with
+  | O => ([], false)
+  | S f =>
+      match trim_left s with
+      | [] => ([], false)
+      | _ => match parse_message s with
+             | Ok (m, rest) => let '(l, b) := stream_msgs f rest in (m :: l, b)
+             | _ => ([], true)
+             end
+      end
+  end.
+Fixpoint process_all (e : env) (c : conn) (ms : list message) (x : ctx) : res ctx :=
+  match ms with
+  | [] => Ok x
+  | m :: r =>
+      let! x1 := process_message e (cn_peer c) (cn_peer_port c) (cn_from c) (cn_received_support c)
+                                 (Some (cn_id c)) m x in
+      process_all e c r x1
+  end.
+Definition close_ctx (c : nat) (x : ctx) : ctx :=
+  {| x_learned := x_learned x; x_p := x_p x; x_conns := close_conn c (x_conns x);
+     x_world := x_world x; x_outs := x_outs x |}.
+
+Lemma tcp_messages_spec : forall fuel e c s x,
+  tcp_messages fuel e c s x =
+  let! x' := process_all e c (fst (stream_msgs fuel s)) x in
+  Ok (if snd (stream_msgs fuel s) then close_ctx (cn_id c) x' else x').
+Proof.
+  induction fuel as [|f IH]; intros e c s x; [reflexivity|].
+  cbn [tcp_messages stream_msgs]. destruct (trim_left s) as [|a t]; [reflexivity|].
+  destruct (parse_message s) as [[m rest]| |]; try reflexivity.
+  destruct (stream_msgs f rest) as [l b] eqn:E. cbn [fst snd process_all].
+  destruct (process_message _ _ _ _ _ _ m x) as [x1| |]; cbn [rbind]; try reflexivity.
+  rewrite IH, E. reflexivity.
+Qed.
+
+Lemma process_all_ok e c ms : fx_bracket_host (e_fx e) = true ->
+  forall x, exists x', process_all e c ms x = Ok x'.
+Proof.
+  intros H. induction ms as [|m r IH]; intros x; [eexists; reflexivity|].
+  cbn [process_all].
+  destruct (C08_process_message_ok e (cn_peer c) (cn_peer_port c) (cn_from c) (cn_received_support c)
+              (Some (cn_id c)) m x H) as [x1 ->].
+  cbn [rbind]. apply IH.
+Qed.
+
+Theorem C08_tcp_messages_ok : forall fuel e c s x,
+  fx_bracket_host (e_fx e) = true -> exists x', tcp_messages fuel e c s x = Ok x'.
+Proof.
+  intros fuel e c s x H. rewrite tcp_messages_spec.
+  destruct (process_all_ok e c (fst (stream_msgs fuel s)) H x) as [x' ->]. eexists; reflexivity.
+Qed.
+Corollary C08_tcp_messages_no_panic : forall fuel e c s x,
+  fx_bracket_host (e_fx e) = true -> tcp_messages fuel e c s x <> Panic.
+Proof. intros fuel e c s x H. destruct (C08_tcp_messages_ok fuel e c s x H) as [x' ->]. discriminate. Qed.
+
+(* ------------------------------------------------------------------ one event *)
+Lemma run_ctx_ok st li f :
+  (forall p x, exists x', f p x = Ok x') -> exists st' outs, run_ctx st li f = Ok (st', outs).
+Proof.
+  intros Hf. unfold run_ctx. destruct (nth_p (st_proxies st) li) as [p|]; [|eexists; eexists; reflexivity].
+  destruct (Hf p {| x_learned := st_learned st; x_p := p; x_conns := st_conns st; x_world := st_world st; x_outs := [] |})
+    as [x' ->]. eexists; eexists; reflexivity.
+Qed.
+
+(* c. every event is either processed or discarded: never Err, never Panic -- for every fix
+   set that contains the bracket guard *)
+Theorem C08_never_err_gen : forall fx c now branch st ev, fx_bracket_host fx = true ->
+  exists st' outs, proxy_step fx c now branch st ev = Ok (st', outs).
+Proof.
+  intros fx c now branch st ev Hfx. destruct ev as [li src sport data|li src sport|cid data|cid|li addr|li addr];
+    cbn [proxy_step].
+  - destruct (nth_opt (c_listens c) li) as [lc|]; [|eexists; eexists; reflexivity].
+    destruct (parse_message data) as [[m r]| |]; try (eexists; eexists; reflexivity).
+    apply run_ctx_ok. intros p x. apply C08_process_message_ok. exact Hfx.
+  - destruct (nth_opt (c_listens c) li) as [lc|]; [|eexists; eexists; reflexivity].
+    destruct (nth_p (st_proxies st) li) as [p|]; [|eexists; eexists; reflexivity].
+    cbv zeta. destruct (get_transport _ _ _ _ _ _) as [p1 rk]. eexists; eexists; reflexivity.
+  - destruct (find _ (st_conns st)) as [cn|]; [|eexists; eexists; reflexivity].
+    destruct (cn_open cn); [|eexists; eexists; reflexivity].
+    destruct (nth_opt (c_listens c) (cn_li cn)) as [lc|]; [|eexists; eexists; reflexivity].
+    apply run_ctx_ok. intros p x. apply C08_tcp_messages_ok. exact Hfx.
+  - eexists; eexists; reflexivity.
+  - destruct (nth_p (st_proxies st) li) as [p|]; eexists; eexists; reflexivity.
+  - destruct (nth_p (st_proxies st) li) as [p|]; [|eexists; eexists; reflexivity].
+    destruct (rr_remove addr (ps_rr p)) as [r' closed]. eexists; eexists; reflexivity.
+Qed.
+
+Theorem C08_never_err : forall c now branch st ev,
+  exists st' outs, proxy_step all_fixed c now branch st ev = Ok (st', outs).
+Proof. intros. apply C08_never_err_gen. reflexivity. Qed.
+
+(* a. no datagram, no TCP chunk, no membership event makes the pipeline panic *)
+Theorem C08_no_panic_gen : forall fx c now branch st ev, fx_bracket_host fx = true ->
+  proxy_step fx c now branch st ev <> Panic.
+Proof.
+  intros fx c now branch st ev H. destruct (C08_never_err_gen fx c now branch st ev H) as (st' & outs & ->).
+  discriminate.
+Qed.
+Theorem C08_no_panic : forall c now branch st ev, proxy_step all_fixed c now branch st ev <> Panic.
+Proof. intros. apply C08_no_panic_gen. reflexivity. Qed.
+
+(* ------------------------------------------------------------------ b. the code as found *)
+Definition crlf_s : string := String (ascii_of_nat 13) (String (ascii_of_nat 10) EmptyString).
+Definition lines (l : list string) : bytes := flat_map (fun s => s2b s ++ s2b crlf_s) l.
+
+Definition wit_lc : listen_cfg :=
+  {| lc_addr := s2b "10.0.0.1"; lc_udp := 5060%Z; lc_tcp := 5060%Z; lc_backends := []; lc_dynamic := false;
+     lc_no_received := true; lc_def_route := false; lc_must_rr := false |}.
+Definition wit_cfg : cfg :=
+  {| c_name := s2b "proxy.example.org"; c_keep_next_hop := false; c_dialog_timeout := 3600%Z;
+     c_routes := []; c_hosts := []; c_listens := [wit_lc] |}.
+Definition legacy_bracket : fixes :=
+  {| fx_wiring := true; fx_udp_via_listener := true; fx_indialog_invite := true; fx_bracket_host := false |}.
+(* a TCP request whose top Via has the sent-by host "[" (received-support off, so the host is
+   not replaced by the peer address) *)
+Definition bracket_request : bytes :=
+  lines ["OPTIONS sip:bob@example.net SIP/2.0"; "Via: SIP/2.0/TCP [;branch=z9hG4bK1"; "CSeq: 1 OPTIONS";
+         "Content-Length: 0"; ""]%string.
+
+Definition step2 (fx : fixes) : res (state * list output) :=
+  let! (st1, _) := proxy_step fx wit_cfg 0%Z (s2b "z9hG4bKa") (init_state wit_cfg 0%Z []) (EvTcpAccept 0 (s2b "10.0.0.9") 40000%Z) in
+  proxy_step fx wit_cfg 1000000%Z (s2b "z9hG4bKb") st1 (EvTcpData 0 bracket_request).
+
+Theorem C08_legacy_refuted :
+  step2 legacy_bracket = Panic /\
+  (exists st', step2 all_fixed = Ok (st', []) /\ conn_open (st_conns st') 0 = true).
+Proof. split; [vm_compute; reflexivity|]. eexists; split; vm_compute; reflexivity. Qed.
+
+(* ------------------------------------------------------------------ d. discarding *)
+Definition undecodable (s : bytes) : Prop := forall m r, parse_message s <> Ok (m, r).
+(* a chunk that does not start (after leading white space) with a decodable message *)
+Definition garbage (s : bytes) : Prop := trim_left s <> [] /\ undecodable s.
+
+Theorem C08_discard_udp : forall fx c now branch st li src sport data, undecodable data ->
+  proxy_step fx c now branch st (EvUdp li src sport data) = Ok (st, []).
+Proof.
+  intros fx c now branch st li src sport data H. cbn [proxy_step].
+  destruct (nth_opt (c_listens c) li); [|reflexivity].
+  destruct (parse_message data) as [[m r]| |] eqn:E; try reflexivity. exfalso; exact (H _ _ E).
+Qed.
+
+Lemma set_nth_p_same : forall l i p, nth_p l i = Some p -> set_nth_p l i p = l.
+Proof.
+  induction l as [|a l IH]; intros [|i] p H; simpl in *; try discriminate; try reflexivity.
+  - injection H as ->. reflexivity.
+  - f_equal. apply IH. exact H.
+Qed.
+
+Lemma stream_msgs_garbage n s : garbage s -> stream_msgs (S n) s = ([], true).
+Proof.
+  intros [Ht Hu]. cbn [stream_msgs]. destruct (trim_left s) as [|a t]; [contradiction|].
+  destruct (parse_message s) as [[m r]| |] eqn:E; try reflexivity. exfalso; exact (Hu _ _ E).
+Qed.
+
+Definition close_state (cid : nat) (st : state) : state :=
+  {| st_learned := st_learned st; st_proxies := st_proxies st; st_conns := close_conn cid (st_conns st);
+     st_world := st_world st |}.
+(* the connection exists, is open and belongs to a configured listener *)
+Definition tcp_live (c : cfg) (st : state) (cid : nat) : bool :=
+  match find (fun x => Nat.eqb (cn_id x) cid) (st_conns st) with
+  | Some cn => cn_open cn &&
+               match nth_opt (c_listens c) (cn_li cn), nth_p (st_proxies st) (cn_li cn) with
+               | Some _, Some _ => true | _, _ => false end
+  | None => false
+  end.
+
+Lemma state_eta st : {| st_learned := st_learned st; st_proxies := st_proxies st; st_conns := st_conns st;
+                        st_world := st_world st |} = st.
+Proof. destruct st; reflexivity. Qed.
+
+(* garbage on a connection: nothing is sent, the connection is marked closed, every other
+   component of the state is unchanged (on a dead connection: nothing at all) *)
+Theorem C08_discard_tcp : forall fx c now branch st cid data, garbage data ->
+  proxy_step fx c now branch st (EvTcpData cid data) =
+  Ok (if tcp_live c st cid then close_state cid st else st, []).
+Proof.
+  intros fx c now branch st cid data Hg. cbn [proxy_step]. unfold tcp_live.
+  destruct (find _ (st_conns st)) as [cn|] eqn:Ef; [|reflexivity].
+  destruct (cn_open cn); [|reflexivity]. cbn [andb].
+  destruct (nth_opt (c_listens c) (cn_li cn)) as [lc|]; [|reflexivity].
+  unfold run_ctx. destruct (nth_p (st_proxies st) (cn_li cn)) as [p|] eqn:Ep; [|reflexivity].
+  rewrite tcp_messages_spec, (stream_msgs_garbage _ _ Hg). cbn [fst snd process_all rbind close_ctx x_learned x_p x_conns x_world x_outs].
+  apply find_some in Ef. destruct Ef as [_ Ef]. apply Nat.eqb_eq in Ef. rewrite Ef.
+  rewrite (set_nth_p_same _ _ _ Ep). reflexivity.
+Qed.
+
+(* ... which is exactly what the peer closing the connection does *)
+Corollary C08_garbage_is_close : forall fx c now branch st cid data, garbage data -> tcp_live c st cid = true ->
+  proxy_step fx c now branch st (EvTcpData cid data) = proxy_step fx c now branch st (EvTcpClose cid).
+Proof. intros fx c now branch st cid data Hg Hl. rewrite (C08_discard_tcp _ _ _ _ _ _ _ Hg), Hl. reflexivity. Qed.
+
+(* a chunk  m ++ garbage : the effect of m alone, then the connection is closed *)
+Lemma parse_ok_trim d m rest : parse_message d = Ok (m, rest) -> trim_left d <> [].
+Proof. unfold parse_message. intros H E. rewrite E in H. discriminate. Qed.
+
+Lemma stream_msgs_one_garbage d m rest : parse_message d = Ok (m, rest) -> garbage rest ->
+  stream_msgs (S (List.length d)) d = ([m], true).
+Proof.
+  intros Hp Hg. pose proof (parse_ok_trim _ _ _ Hp) as Ht. cbn [stream_msgs].
+  destruct (trim_left d) as [|a t] eqn:E; [contradiction|]. rewrite Hp.
+  destruct d as [|b d']; [discriminate|]. cbn [List.length]. rewrite (stream_msgs_garbage _ _ Hg). reflexivity.
+Qed.
+Lemma stream_msgs_one_clean d m rest : parse_message d = Ok (m, rest) -> trim_left rest = [] ->
+  stream_msgs (S (List.length d)) d = ([m], false).
+Proof.
+  intros Hp Hr. pose proof (parse_ok_trim _ _ _ Hp) as Ht. cbn [stream_msgs].
+  destruct (trim_left d) as [|a t] eqn:E; [contradiction|]. rewrite Hp.
+  destruct d as [|b d']; [discriminate|]. cbn [List.length stream_msgs]. rewrite Hr. reflexivity.
+Qed.
+
+Theorem C08_tcp_garbage_after : forall d d1 m rest rest1 e c x,
+  parse_message d = Ok (m, rest) -> garbage rest ->
+  parse_message d1 = Ok (m, rest1) -> trim_left rest1 = [] ->
+  tcp_messages (S (List.length d)) e c d x =
+  rmap (close_ctx (cn_id c)) (tcp_messages (S (List.length d1)) e c d1 x).
+Proof.
+  intros d d1 m rest rest1 e c x Hp Hg Hp1 Hr. rewrite !tcp_messages_spec.
+  rewrite (stream_msgs_one_garbage _ _ _ Hp Hg), (stream_msgs_one_clean _ _ _ Hp1 Hr).
+  cbn [fst snd]. destruct (process_all e c [m] x); reflexivity.
+Qed.
+
+Theorem C08_discard_tcp_after : forall fx c now branch st cid d d1 m rest rest1 st1 outs1,
+  parse_message d = Ok (m, rest) -> garbage rest ->
+  parse_message d1 = Ok (m, rest1) -> trim_left rest1 = [] ->
+  tcp_live c st cid = true ->
+  proxy_step fx c now branch st (EvTcpData cid d1) = Ok (st1, outs1) ->
+  proxy_step fx c now branch st (EvTcpData cid d) = Ok (close_state cid st1, outs1).
+Proof.
+  intros fx c now branch st cid d d1 m rest rest1 st1 outs1 Hp Hg Hp1 Hr Hl. cbn [proxy_step]. unfold tcp_live in Hl.
+  destruct (find _ (st_conns st)) as [cn|] eqn:Ef; [|discriminate].
+  destruct (cn_open cn); [|discriminate]. cbn [andb] in Hl.
+  destruct (nth_opt (c_listens c) (cn_li cn)) as [lc|]; [|discriminate].
+  unfold run_ctx. destruct (nth_p (st_proxies st) (cn_li cn)) as [p|] eqn:Ep; [|discriminate].
+  rewrite (C08_tcp_garbage_after d d1 m rest rest1 _ _ _ Hp Hg Hp1 Hr).
+  apply find_some in Ef. destruct Ef as [_ Ef]. apply Nat.eqb_eq in Ef. rewrite Ef.
+  destruct (tcp_messages (S (List.length d1)) _ cn d1 _) as [x1| |]; cbn [rmap]; try discriminate.
+  intros H. injection H as <- <-. reflexivity.
+Qed.
+
+(* the proxy keeps serving: a run with explicit time and branch per event (so that removing an
+   event does not shift the branches of the others) *)
+Fixpoint run_steps (fx : fixes) (c : cfg) (st : state) (evs : list (Z * bytes * event))
+  : res (state * list (list output)) :=
+  match evs with
+  | [] => Ok (st, [])
+  | (now, branch, ev) :: r =>
+      let! (st1, o) := proxy_step fx c now branch st ev in
+      let! (st2, os) := run_steps fx c st1 r in
+      Ok (st2, o :: os)
+  end.
+
+Lemma run_steps_skip fx c tev evs2 :
+  (forall st, proxy_step fx c (fst (fst tev)) (snd (fst tev)) st (snd tev) = Ok (st, [])) ->
+  forall evs1 st,
+  run_steps fx c st (evs1 ++ tev :: evs2) =
+  rmap (fun '(st', os) => (st', insert_at (List.length evs1) [] os)) (run_steps fx c st (evs1 ++ evs2)).
+Proof.
+  intros H. induction evs1 as [|[[n b] ev] evs1 IH]; intros st.
+  - destruct tev as [[n b] ev]. cbn [app run_steps List.length]. simpl in H. rewrite H. cbn [rbind].
+    destruct (run_steps fx c st evs2) as [[st2 os]| |]; reflexivity.
+  - cbn [app run_steps List.length]. destruct (proxy_step fx c n b st ev) as [[st1 o]| |]; cbn [rbind rmap]; try reflexivity.
+    rewrite IH. destruct (run_steps fx c st1 (evs1 ++ evs2)) as [[st2 os]| |]; reflexivity.
+Qed.
+
+(* an undecodable datagram anywhere in a run: same final state, same outputs for every other
+   event, nothing for the datagram itself *)
+Theorem C08_serves_after : forall fx c st evs1 evs2 now branch li src sport d, undecodable d ->
+  run_steps fx c st (evs1 ++ (now, branch, EvUdp li src sport d) :: evs2) =
+  rmap (fun '(st', os) => (st', insert_at (List.length evs1) [] os)) (run_steps fx c st (evs1 ++ evs2)).
+Proof.
+  intros fx c st evs1 evs2 now branch li src sport d H. apply run_steps_skip.
+  intros st0. apply C08_discard_udp. exact H.
+Qed.
+(* garbage on a TCP connection: the run continues as after a close of that connection *)
+Theorem C08_serves_after_tcp : forall fx c st evs1 evs2 now branch cid d st1 os1, garbage d ->
+  run_steps fx c st evs1 = Ok (st1, os1) ->
+  run_steps fx c st (evs1 ++ (now, branch, EvTcpData cid d) :: evs2) =
+  run_steps fx c st (evs1 ++ (if tcp_live c st1 cid then [(now, branch, EvTcpClose cid)]
+                              else [(now, branch, EvUdp 0 [] 0%Z [])]) ++ evs2).
+Proof.
+  intros fx c st evs1. revert st. induction evs1 as [|[[n b] ev] evs1 IH]; intros st evs2 now branch cid d st1 os1 Hg Hr.
+  - simpl in Hr. injection Hr as <- <-. cbn [app run_steps]. rewrite (C08_discard_tcp _ _ _ _ _ _ _ Hg).
+    destruct (tcp_live c st cid); cbn [app run_steps]; [reflexivity|].
+    rewrite C08_discard_udp; [reflexivity|]. intros m r. vm_compute. discriminate.
+  - cbn [app run_steps] in *. destruct (proxy_step fx c n b st ev) as [[st0 o]| |]; cbn [rbind] in *; try discriminate.
+    destruct (run_steps fx c st0 evs1) as [[st2 os]| |] eqn:E; cbn [rbind] in Hr; try discriminate.
+    injection Hr as <- <-. rewrite (IH st0 evs2 now branch cid d st2 os Hg E). reflexivity.
+Qed.
+
+(* ------------------------------------------------------------------ e. outputs are bounded *)
+(* outputs that carry a message (a [DDial] only records that a connection was opened) *)
+Definition carries (o : output) : bool := match fst o with DDial _ _ _ => false | _ => true end.
+Definition count_msg (outs : list output) : nat := List.length (filter carries outs).
+Lemma count_msg_app a b : count_msg (a ++ b) = count_msg a + count_msg b.
+Proof. unfold count_msg. rewrite filter_app, app_length. reflexivity. Qed.
+
+Lemma tcp_client_send_count : forall n li local rs id b p cs w outs p' cs' w' outs' ok,
+  tcp_client_send n li local rs id b p cs w outs = (p', cs', w', outs', ok) ->
+  count_msg outs' <= count_msg outs + 1 /\ List.length outs' <= List.length outs + n.
+Proof.
+  induction n as [|n IH]; intros li local rs id b p cs w outs p' cs' w' outs' ok H; cbn [tcp_client_send] in H.
+  - injection H as <- <- <- <- <-. lia.
+  - destruct (find_client id (ps_clients p)) as [cl|]; [|injection H as <- <- <- <- <-; lia].
+    destruct (tc_cached cl) as [c|].
+    + destruct (conn_open cs c).
+      * injection H as <- <- <- <- <-. rewrite count_msg_app, app_length. cbn. lia.
+      * apply IH in H. lia.
+    + destruct (existsb _ (w_tcp_listeners w)); [|injection H as <- <- <- <- <-; lia].
+      apply IH in H. rewrite count_msg_app, app_length in H. cbn in H. lia.
+Qed.
+
+Lemma failover_send_count li local rs f b p cs w p' cs' w' outs ok f' :
+  failover_send li local rs f b p cs w = (p', cs', w', outs, ok, f') ->
+  count_msg outs <= 1 /\ List.length outs <= 2.
+Proof.
+  unfold failover_send.
+  assert (T : forall f1 p' cs' w' outs ok f',
+    match fo_sec f1 with
+    | Some id => let '(p2, cs2, w2, outs2, ok) := tcp_client_send 2 li local rs id b p cs w [] in
+                 (p2, cs2, w2, outs2, ok, f1)
+    | None => (p, cs, w, [], false, f1)
+    end = (p', cs', w', outs, ok, f') -> count_msg outs <= 1 /\ List.length outs <= 2).
+  { intros f1 p1 cs1 w1 outs1 ok1 f1'. destruct (fo_sec f1) as [id|].
+    - destruct (tcp_client_send 2 li local rs id b p cs w []) as [[[[p2 cs2] w2] outs2] ok2] eqn:E.
+      intros H. injection H as <- <- <- <- <- <-. apply tcp_client_send_count in E. cbn in E. lia.
+    - intros H. injection H as <- <- <- <- <- <-. cbn. lia. }
+  destruct (fo_pri f) as [[ip port|ip port|c ex]|].
+  - destruct (fits_datagram b); [intros H; injection H as <- <- <- <- <- <-; cbn; lia|apply T].
+  - destruct (fits_datagram b); [intros H; injection H as <- <- <- <- <- <-; cbn; lia|apply T].
+  - destruct (conn_open cs c); [intros H; injection H as <- <- <- <- <- <-; cbn; lia|apply T].
+  - apply T.
+Qed.
+
+Lemma send_message_count e host port tr m x :
+  let x' := fst (send_message e host port tr m x) in
+  count_msg (x_outs x') <= count_msg (x_outs x) + 1 /\ List.length (x_outs x') <= List.length (x_outs x) + 2.
+Proof.
+  unfold send_message. destruct (mtry s_client_transaction m) as [m1 tid].
+  destruct (get_transport _ _ _ _ _ _) as [p1 [key| |]]; cbn [fst x_outs]; try lia.
+  set (p2 := match alookup key (ps_table p1) with Some {| fo_pri := None |} => _ | _ => p1 end).
+  destruct (alookup key (ps_table p2)) as [f|]; cbn [fst x_outs]; try lia.
+  destruct (failover_send _ _ _ f _ _ _ _) as [[[[[p4 cs] w] outs] ok] f'] eqn:E.
+  apply failover_send_count in E. cbn [fst x_outs]. rewrite count_msg_app, app_length. lia.
+Qed.
+
+Lemma backend_send_count b bs p p' outs ok : backend_send b bs p = (p', outs, ok) -> List.length outs <= 1.
+Proof.
+  unfold backend_send.
+  assert (T : forall a, List.length (match last_index_byte ":"%char a with
+                        | Some pos => [(DUdp (firstn pos a) (atoi_val (skipn (S pos) a)), bs)]
+                        | None => [] end) <= 1).
+  { intros a. destruct (last_index_byte ":"%char a); cbn; lia. }
+  destruct b as [a g|].
+  - destruct (_ && _)%bool; intros H; injection H as <- <- <-; [apply T|cbn; lia].
+  - destruct (rr_dispatch (ps_rr p)) as [r' [a|]].
+    + destruct (fits_datagram bs); intros H; injection H as <- <- <-; [apply T|cbn; lia].
+    + intros H; injection H as <- <- <-; cbn; lia.
+Qed.
+Lemma count_msg_le outs : count_msg outs <= List.length outs.
+Proof.
+  unfold count_msg. induction outs as [|o r IH]; cbn [filter List.length]; [lia|].
+  destruct (carries o); cbn [List.length]; lia.
+Qed.
+
+Lemma send_to_backend_count e m x :
+  let x' := fst (send_to_backend e m x) in
+  count_msg (x_outs x') <= count_msg (x_outs x) + 1 /\ List.length (x_outs x') <= List.length (x_outs x) + 2.
+Proof.
+  unfold send_to_backend. destruct (negb (ps_has_rr (x_p x))); cbn [fst]; [lia|].
+  destruct (first_transport (e_lc e)) as [t0|]; cbn [fst]; [|lia].
+  destruct (find_backend_by_dialog e (x_p x) m) as [m1 r].
+  destruct (match r with Ok v => v | _ => (x_p x, None) end) as [p1 ob].
+  destruct (backend_send _ _ p1) as [[p2 outs] ok] eqn:E. apply backend_send_count in E.
+  destruct ok.
+  - destruct (mtry s_client_transaction _) as [m3 tid]. cbn [fst x_outs]. rewrite count_msg_app, app_length.
+    pose proof (count_msg_le outs). lia.
+  - cbn [fst x_outs]. lia.
+Qed.
+
+Lemma handle_message_count e from m x :
+  let x' := fst (handle_message e from m x) in
+  count_msg (x_outs x') <= count_msg (x_outs x) + 1 /\ List.length (x_outs x') <= List.length (x_outs x) + 2.
+Proof.
+  unfold handle_message. destruct (is_request m).
+  - destruct (next_request_hop _ _ m) as [m1 [[[host port] tr]| |]].
+    + apply send_message_count.
+    + destruct (is_my_message _ from m1); [apply send_to_backend_count|cbn; lia].
+    + destruct (is_my_message _ from m1); [apply send_to_backend_count|cbn; lia].
+  - destruct (mtry s_pop_via m) as [m1 r1]. destruct (mtry next_response_hop m1) as [m2 hop].
+    destruct (mtry s_get_method m2) as [m3 ometh].
+    destruct (match hop, ometh with Ok (Some (host, port, _)), Ok (Some meth) => _ | _, _ => (m3, x_p x) end) as [m4 p1].
+    destruct hop as [[[[host port] tr]|]| |]; try (cbn [fst x_outs]; lia).
+    set (x1 := {| x_learned := _ |}). change (x_outs x) with (x_outs x1). apply send_message_count.
+Qed.
+
+Lemma process_message_count e peer pp from rs tcp m0 x x' :
+  process_message e peer pp from rs tcp m0 x = Ok x' ->
+  count_msg (x_outs x') <= count_msg (x_outs x) + 1 /\ List.length (x_outs x') <= List.length (x_outs x) + 2.
+Proof.
+  unfold process_message.
+  destruct (if (is_request m0 && negb (amem peer (ps_backends (x_p x))))%bool then _ else _) as [m1 l1].
+  destruct (match tcp with Some c => _ | None => _ end) as [m3 [p1| |]]; try discriminate.
+  cbv zeta. destruct (if is_response _ then _ else _) as [m5 p2].
+  intros H. injection H as <-.
+  set (x1 := {| x_learned := l1 |}). change (x_outs x) with (x_outs x1). apply handle_message_count.
+Qed.
+
+Lemma process_all_count e c ms : forall x x', process_all e c ms x = Ok x' ->
+  count_msg (x_outs x') <= count_msg (x_outs x) + List.length ms /\
+  List.length (x_outs x') <= List.length (x_outs x) + 2 * List.length ms.
+Proof.
+  induction ms as [|m r IH]; intros x x' H; cbn [process_all] in H.
+  - injection H as <-. cbn. lia.
+  - destruct (process_message _ _ _ _ _ _ m x) as [x1| |] eqn:E; cbn [rbind] in H; try discriminate.
+    apply process_message_count in E. apply IH in H. cbn [List.length]. lia.
+Qed.
+
+(* the messages an event carries *)
+Definition msgs_in (ev : event) : nat :=
+  match ev with
+  | EvUdp _ _ _ d => if is_ok (parse_message d) then 1 else 0
+  | EvTcpData _ d => List.length (fst (stream_msgs (S (List.length d)) d))
+  | _ => 0
+  end.
+
+Lemma run_ctx_outs st li f st' outs n :
+  (forall p x x', x_outs x = [] -> f p x = Ok x' -> count_msg (x_outs x') <= n /\ List.length (x_outs x') <= 2 * n) ->
+  run_ctx st li f = Ok (st', outs) -> count_msg outs <= n /\ List.length outs <= 2 * n.
+Proof.
+  intros Hf. unfold run_ctx. destruct (nth_p (st_proxies st) li) as [p|].
+  - destruct (f p _) as [x'| |] eqn:E; try discriminate. intros H; injection H as <- <-.
+    exact (Hf _ _ _ (eq_refl : x_outs {| x_learned := st_learned st; x_p := p; x_conns := st_conns st; x_world := st_world st; x_outs := [] |} = []) E).
+  - intros H; injection H as <- <-. cbn. lia.
+Qed.
+
+(* every event relays at most as many messages as it carries (a datagram at most one), and
+   produces at most two outputs per message (a relayed message may be preceded by the record of
+   the connection that was opened for it) -- for every fix set, state and configuration *)
+Theorem C08_output_bounded : forall fx c now branch st ev st' outs,
+  proxy_step fx c now branch st ev = Ok (st', outs) ->
+  count_msg outs <= msgs_in ev /\ List.length outs <= 2 * msgs_in ev.
+Proof.
+  intros fx c now branch st ev st' outs.
+  destruct ev as [li src sport data|li src sport|cid data|cid|li addr|li addr]; cbn [proxy_step msgs_in].
+  - destruct (nth_opt (c_listens c) li) as [lc|]; [|intros H; injection H as <- <-; cbn; lia].
+    destruct (parse_message data) as [[m r]| |]; cbn [is_ok]; try (intros H; injection H as <- <-; cbn; lia).
+    apply run_ctx_outs. intros p x x' Hx H. apply process_message_count in H. rewrite Hx in H. cbn in H. lia.
+  - destruct (nth_opt (c_listens c) li) as [lc|]; [|intros H; injection H as <- <-; cbn; lia].
+    destruct (nth_p (st_proxies st) li) as [p|]; [|intros H; injection H as <- <-; cbn; lia].
+    cbv zeta. destruct (get_transport _ _ _ _ _ _) as [p1 rk]. intros H; injection H as <- <-; cbn; lia.
+  - destruct (find _ (st_conns st)) as [cn|]; [|intros H; injection H as <- <-; cbn; lia].
+    destruct (cn_open cn); [|intros H; injection H as <- <-; cbn; lia].
+    destruct (nth_opt (c_listens c) (cn_li cn)) as [lc|]; [|intros H; injection H as <- <-; cbn; lia].
+    apply run_ctx_outs. intros p x x' Hx H. rewrite tcp_messages_spec in H.
+    set (sm := stream_msgs (S (List.length data)) data) in *. clearbody sm.
+    destruct (process_all _ cn _ x) as [x1| |] eqn:E; cbn [rbind] in H; try discriminate.
+    apply process_all_count in E. rewrite Hx in E. cbn in E. injection H as <-.
+    destruct (snd sm); cbn [close_ctx x_outs]; lia.
+  - intros H; injection H as <- <-; cbn; lia.
+  - destruct (nth_p (st_proxies st) li) as [p|]; intros H; injection H as <- <-; cbn; lia.
+  - destruct (nth_p (st_proxies st) li) as [p|]; [|intros H; injection H as <- <-; cbn; lia].
+    destruct (rr_remove addr (ps_rr p)) as [r' closed]. intros H; injection H as <- <-; cbn; lia.
+Qed.
+(* a chunk of n bytes carries fewer than n messages *)
+Lemma stream_msgs_length : forall fuel s, List.length (fst (stream_msgs fuel s)) <= fuel.
+Proof.
+  induction fuel as [|f IH]; intros s; cbn [stream_msgs]; [cbn; lia|].
+  destruct (trim_left s); [cbn; lia|]. destruct (parse_message s) as [[m rest]| |]; try (cbn; lia).
+  specialize (IH rest). destruct (stream_msgs f rest) as [l0 b0]. cbn [fst List.length] in *. lia.
 Qed.
